@@ -215,8 +215,13 @@ class AsyncFIXConnection:
 
             self.log.info(f"Client disconnected, with state: {repr(disconn_state)}")
             if self._socket_writer:
-                self._socket_writer.close()
-                await self._socket_writer.wait_closed()
+                socket_writer = self._socket_writer
+                socket_writer.close()
+                await socket_writer.wait_closed()
+                if self._connection_state <= ConnectionState.DISCONNECTED_BROKEN_CONN:
+                    # socket_read_task() got EOF of the closing socket and finished
+                    #   disconnect() while we were waiting, on_disconnect() was called
+                    return
             self._socket_writer = None
             self._socket_reader = None
             await self._state_set(disconn_state)
